@@ -35,7 +35,7 @@ Proof.
   match goal with |- context [for_eachS (calc c) ?b tt] => set (body := b) end.
   rewrite (write_loop repr encb enc p body).
   - destruct (encodable repr encb enc (calc c)); reflexivity.
-  - intros it u fs'. subst body. cbv beta. unfold bindS, fwrite. cbn [h_enc h_path].
+  - intros it u fs'. subst body. cbv beta zeta. unfold bindS, fwrite. cbn [h_enc h_path].
     unfold write_item. destruct it as [v n]. cbn [fst snd].
     repeat rewrite <- app_assoc. cbn [app]. unfold TAB, LF, NormS.
     destruct (forallb (encb enc) (v ++ 9 :: repr n ++ [10])); reflexivity.
